@@ -43,6 +43,9 @@ claimed = {
              note="encoding/json is replaced by a contract model that reads the real struct types and tags of /repo's current source through go/types (exported fields, names, '-', omitempty, duplicate-name elimination, case-insensitive decode, nil<->null); JSON text syntax/escaping/non-ASCII and the format->JSON->format sentence are outside the claim. Counterexamples are replayed natively against the real encoding/json."),
  "C13": dict(design="5/C13", text="fasta.Build / Parse / ParseConcurrent from SSA with record names and every sequence letter symbolic: Parse(Build(x)) = x, the parse result is unchanged by the harness's own re-wrapping (widths 1/3/60, blank lines, ';' comments, CRLF), sequences of 65536 letters (quick) and 65535/65536/65537/70000 (thorough) survive, and the streaming parser delivers the records in order and closes its channel exactly once for channel capacities 0/1/1000 over all explored schedules.",
              note="bufio.Scanner (incl. its token-size limit and Buffer()), bytes.Reader and bytes.Buffer are models; goroutines are scheduled at synchronisation points only (default schedule, its LIFO mirror and all schedules deviating at <= 2 (quick) / 3 (thorough) choice points); gzip, files and the race detector are outside the claim."),
+ "C20": dict(design="5/C20", text="uniprot.Parse (the token loop) executed from SSA against every event script up to the stated length (entries, entries damaged inside, other elements/tokens, syntax errors), channel capacities 0/1/100, both documented consumer shapes and every explored schedule: entries before the damage are delivered once and in order, a damaged document reports at least one error, both channels are closed and the parser terminates (no deadlock, step budget as termination obligation).",
+             note="encoding/xml.Decoder is an event-script stub with sticky syntax errors (natively the same script is laid out as a real Uniprot XML document for replay). There is no symbolic data in this check: scripts and schedules are enumerated by the executor and no solver query is needed; entry content, gzip and byte-level truncation are outside the claim.",
+             tech="exhaustive exploration of event scripts x goroutine schedules by the polysym symbolic executor over the real go/ssa (no symbolic data: the state space is enumerated, the solver is not consulted); deadlock / step-budget detection; native replay"),
 }
 
 na_reason = {}
@@ -63,7 +66,7 @@ for p in props:
             "engine": "polysym",
             "level_claimed": {"category": "model_checking", "text": c["text"], "design_ref": c["design"]},
             "level_note": BASE_NOTE + c["note"],
-            "technique": TECH,
+            "technique": c.get("tech", TECH),
         })
 
 m = {
